@@ -1059,7 +1059,7 @@ def p_lstsq(itp, name, args, kw, node, st):
     x.shape = (A.shape[1],) if (A.shape is not None and len(A.shape) == 2) else (None,)
     x.ex = None
     x.nonneg = False
-    itp.events.append(('lstsq', node, A, b))
+    itp.events.append(('lstsq', node, A, b, x))
     USED.add('lstsq(A,b): the minimiser has exponents deg(b)-deg(A) and one entry per column of A')
     return Tup([x, Num(top_deg(), None, taint=x.taint), IntV(None, x.taint), Num(top_deg(), (None,), taint=x.taint)])
 
